@@ -282,12 +282,17 @@ class WebSocket:
                             "Redirect response without Location header"
                         )
                     self.sock.close()
-                    self.sock, addrs = connect(
-                        url,
-                        self.sock_opt,
-                        proxy_info(**options),
-                        options.pop("socket", None),
-                    )
+                    try:
+                        self.sock, addrs = connect(
+                            url,
+                            self.sock_opt,
+                            proxy_info(**options),
+                            options.pop("socket", None),
+                        )
+                    except ValueError as e:
+                        raise WebSocketException(
+                            f"Invalid redirect location {url!r}: {e}"
+                        )
                     self.handshake_response = handshake(
                         self.sock, url, *addrs, **options
                     )
